@@ -206,6 +206,11 @@ func (f *casFileEntryFactory) ListNames(state FileState) ([]string, error) {
 		}
 		for _, info := range infos {
 			if depth == 0 {
+				// A directory without data file is the leftover of an
+				// interrupted create or move, not a stored file.
+				if _, err := os.Stat(filepath.Join(dir, info.Name(), DefaultDataFileName)); err != nil {
+					continue
+				}
 				names = append(names, info.Name())
 			} else {
 				if !info.IsDir() {
